@@ -105,28 +105,27 @@ func VHOncePanic() {
 		}
 	})
 	vAssert(p, "the panic of the first function propagates to its caller")
+	// What a later Do call yields after a panicking invocation is not fixed by the property (zero
+	// values as with sync.Once, or the same panic again as with sync.OnceValue): only that it ends
+	// and that no second function is ever invoked.
 	x := vInt("x")
-	switch which {
-	case 0:
-		o1.Do(func() int { calls++; return x })
-	case 1:
-		o2.Do(func() (int, int) { calls++; return x, x })
-	case 2:
-		o3.Do(func() (int, int, int) { calls++; return x, x, x })
+	later := func() {
+		vPanics(func() {
+			switch which {
+			case 0:
+				o1.Do(func() int { calls++; return x })
+			case 1:
+				o2.Do(func() (int, int) { calls++; return x, x })
+			case 2:
+				o3.Do(func() (int, int, int) { calls++; return x, x, x })
+			}
+		})
 	}
+	later()
 	vAssert(calls == 1, "exactly one of the functions is invoked, exactly once - even when it panicked")
 	// and with a second goroutine arriving later
-	vGo(func() {
-		switch which {
-		case 0:
-			o1.Do(func() int { calls++; return x })
-		case 1:
-			o2.Do(func() (int, int) { calls++; return x, x })
-		case 2:
-			o3.Do(func() (int, int, int) { calls++; return x, x, x })
-		}
-	})
-	vAssert(vWait(), "a later Do call returns")
+	vGo(later)
+	vAssert(vWait(), "a later Do call ends")
 	vAssert(calls == 1, "no later caller's function is invoked after a panicking first invocation")
 	vCover("once panic done")
 }
